@@ -129,6 +129,10 @@ func CheckContent(hp Hole, content string) {
 					verif.Assert(got[i].Val == hp.SQLPrefix+pqlName, "the SQL quoted identifier does not decode to the PQL name")
 				case SQLNumber:
 					verif.Assert(got[i].Text == pqlValue, "the SQL number is not the normalised PQL number")
+					if hp.Kind == "number" {
+						verif.Assert(SameNumber(content, got[i].Text), "the SQL number does not denote the numeric value written in PQL")
+						verif.Cover("number-value-checked")
+					}
 				}
 			}
 			verif.Cover("decoded")
@@ -158,4 +162,81 @@ func H_C04dict(p int) {
 		return
 	}
 	CheckContent(hp, DictContents[verif.Concrete(verif.IntRange(0, len(DictContents)))])
+}
+
+// numParts splits a decimal spelling into integer digits (leading zeros removed),
+// fraction digits (trailing zeros removed) and a signed decimal exponent; hexadecimal
+// spellings are converted to their decimal integer digits.
+func numParts(s string) (ip, fp string, exp int, ok bool) {
+	if len(s) >= 2 && s[0] == '0' && (s[1] == 'x' || s[1] == 'X') {
+		var v uint64
+		if len(s) == 2 || len(s) > 18 {
+			return "", "", 0, false
+		}
+		for i := 2; i < len(s); i++ {
+			if !isHex(s[i]) {
+				return "", "", 0, false
+			}
+			v = v<<4 | hexVal(s[i])
+		}
+		if v == 0 {
+			return "", "", 0, true
+		}
+		return utoa(v), "", 0, true
+	}
+	i := 0
+	for i < len(s) && isDig(s[i]) {
+		i++
+	}
+	ip = s[:i]
+	if i < len(s) && s[i] == '.' {
+		j := i + 1
+		for j < len(s) && isDig(s[j]) {
+			j++
+		}
+		fp = s[i+1 : j]
+		i = j
+	}
+	if i < len(s) && (s[i] == 'e' || s[i] == 'E') {
+		i++
+		neg := false
+		if i < len(s) && (s[i] == '+' || s[i] == '-') {
+			neg = s[i] == '-'
+			i++
+		}
+		if i >= len(s) {
+			return "", "", 0, false
+		}
+		for i < len(s) && isDig(s[i]) {
+			exp = exp*10 + int(s[i]-'0')
+			i++
+		}
+		if neg {
+			exp = -exp
+		}
+	}
+	if i != len(s) {
+		return "", "", 0, false
+	}
+	k := 0
+	for k < len(ip) && ip[k] == '0' {
+		k++
+	}
+	ip = ip[k:]
+	k = len(fp)
+	for k > 0 && fp[k-1] == '0' {
+		k--
+	}
+	fp = fp[:k]
+	if ip == "" && fp == "" {
+		exp = 0 // zero, whatever the exponent
+	}
+	return ip, fp, exp, true
+}
+
+// SameNumber reports whether two numeric spellings denote the same value.
+func SameNumber(a, b string) bool {
+	ai, af, ae, ok1 := numParts(a)
+	bi, bf, be, ok2 := numParts(b)
+	return ok1 && ok2 && ai == bi && af == bf && ae == be
 }
